@@ -187,7 +187,8 @@ def Res.eqv : Res → Res → Bool
   | _, _ => false
 
 def Obs.eqv (a b : Obs) : Bool :=
-  a.result.eqv b.result && a.argUnchanged == b.argUnchanged && a.roundtrip == b.roundtrip
+  a.result.eqv b.result && a.argUnchanged == b.argUnchanged && a.roundtrip == b.roundtrip &&
+  a.faultFired == b.faultFired && a.stable == b.stable
 
 instance : BEq Obs := ⟨Obs.eqv⟩
 
@@ -220,7 +221,23 @@ def wfP : List (PVal × PVal) → Bool
   | (k, v) :: r => wfV k && wfV v && wfP r
 end
 
-def wf (c : Case) : Bool := wfV c.value
+/-- the callback the fault sits in is actually passed to the call -/
+def siteOK (c : Case) (f : Fault) : Bool :=
+  match f.site with
+  | .ser => c.api == .asdict && c.ser != .off
+  | .filter => c.filter != .none
+  | .dictFactory => c.api == .asdict && !c.ng
+  | .tupleFactory => c.api == .astuple && !c.ng
+
+/-- only the property's own preconditions: the tree exists as a Python value, the callback the fault sits in
+    is passed.  (Generator invariant, not a precondition: faults are injected only into calls that complete
+    without them, so the injected exception is the only one in play and "the k-th call" does not depend on the
+    order of evaluation; see `fires`.) -/
+def wf (c : Case) : Bool :=
+  wfV c.value &&
+  match c.fault with
+  | none => true
+  | some f => siteOK c f
 
 /-! ## Known deviations: none (K13a / K13b / K13c were repaired in attrs; the former witnesses are
     regression cases in `corpus/C13`, the old behaviour is kept in `Proofs/C13Old.lean`) -/
@@ -247,12 +264,18 @@ def Res.isExc : Res → Bool
   | .exc _ => true
   | .ok _ => false
 
+/-- * no mutation; a repeated identical call gives the same (the functions depend on nothing but their
+      arguments — not on what was converted before, nor on when a class became an attrs class);
+    * an exception raised by a callback (value_serializer, filter, dict_factory, tuple_factory) propagates:
+      it is not swallowed and no partial result is returned;
+    * otherwise the result is the promised shape, built. -/
 def spec (c : Case) (o : Obs) : Bool :=
-  o.argUnchanged &&
-  (match demanded c with
-   | .nothing => true
-   | .value v => o.result.eqv (.ok v)
-   | .raises => o.result.isExc) &&
+  o.argUnchanged && o.stable &&
+  (if o.faultFired then o.result.eqv (.exc "fault")
+   else match demanded c with
+     | .nothing => true
+     | .value v => o.result.eqv (.ok v)
+     | .raises => o.result.isExc) &&
   (if roundtripApplies c then o.roundtrip == some true else true)
 
 def check : Check Case Obs := { model := model, spec := spec, wf := wf, known := known }
